@@ -36,6 +36,9 @@ func toGen(m interface{}) proto.Message {
 	switch v := m.(type) {
 	case *dynamic.Message:
 		var out proto.Message
+		if v == nil || v.GetMessageDescriptor() == nil {
+			return nil // a dynamic message without a type: not a usable copy
+		}
 		switch v.GetMessageDescriptor().GetFullyQualifiedName() {
 		case "grpchantesting.Message":
 			out = &hx.Msg{}
@@ -69,6 +72,9 @@ func sameAs(m interface{}, snap proto.Message) bool {
 func mutateInPlace(m interface{}) {
 	switch v := m.(type) {
 	case *dynamic.Message:
+		if v == nil || v.GetMessageDescriptor() == nil {
+			return
+		}
 		for _, fd := range v.GetKnownFields() {
 			if !v.HasField(fd) {
 				continue
@@ -245,6 +251,11 @@ func runC18(o *hx.Out, r *hx.Rand, thorough bool) {
 		{6, false, "Empty+unknown", func() interface{} { e := &emptypb.Empty{}; e.ProtoReflect().SetUnknown(unknown()); return e }},
 		{1, true, "dynamic grpchantesting.Message", func() interface{} { return asDyn(msgDesc, randMsg()) }},
 		{2, true, "dynamic HttpTrailer", func() interface{} { return asDyn(trDesc, randTrailer()) }},
+		// sources whose encoding has no bytes at all: copying one must still replace the destination
+		{1, false, "grpchantesting.Message (all fields zero)", func() interface{} { return &hx.Msg{} }},
+		{2, false, "HttpTrailer (all fields zero)", func() interface{} { return &httpgrpc.HttpTrailer{} }},
+		{3, false, "StringValue (empty)", func() interface{} { return wrapperspb.String("") }},
+		{1, true, "dynamic grpchantesting.Message (all fields zero)", func() interface{} { return dynamic.NewMessage(msgDesc) }},
 	}
 	classify := func(f func() error) (cls int64) {
 		defer func() {
